@@ -54,7 +54,8 @@ def slices(ctx):
         dev3 = dict(MINI, Origins=[(0, 0), (1, -1)], Boxes=[B_BIG, B_IN, B_OUT], MaxBoxes=3, MaxOps=3, PolyOps=["translate", "poke"], DevOps=pa.DEV_OPS,
                     ProbeModes=["none", "inside", "outside"])
         s["devices-depth3"] = (dev3, False)
-        s["devices-depth3-chained"] = (dict(dev3, Chained=True), True)
+        s["devices-depth3-chained"] = (dict(dev3, Chained=True, ProbeModes=["inside"]), True)
+        s["devices-depth3-chained-2boxes"] = (dict(dev3, Chained=True, Boxes=[B_BIG, B_IN], MinBoxes=2, MaxBoxes=2), True)
         pd3 = dict(MINI, Boxes=[B_OVER, B_ADJ], MaxBoxes=2, MaxOps=3, PolyOps=pa.POLY_OPS, DevOps=[])
         s["poly-depth3"] = (pd3, False)
         s["poly-depth3-chained"] = (dict(pd3, Chained=True), True)
